@@ -132,6 +132,35 @@ func speculatable(b *ssa.BasicBlock) bool {
 	return true
 }
 
+// defaultStores: the block only stores constants into fields (x.f = const; ...).
+func defaultStores(b *ssa.BasicBlock) bool {
+	stores := 0
+	for _, in := range b.Instrs {
+		switch x := in.(type) {
+		case *ssa.FieldAddr, *ssa.Jump, *ssa.DebugRef:
+		case *ssa.UnOp:
+			if x.Op != token.MUL {
+				return false
+			}
+		case *ssa.Store:
+			fa, ok := x.Addr.(*ssa.FieldAddr)
+			if !ok || fa.Block() != b {
+				return false
+			}
+			if _, ok := x.Val.(*ssa.Const); !ok {
+				return false
+			}
+			if _, scalar := sortOf(x.Val.Type()); !scalar {
+				return false
+			}
+			stores++
+		default:
+			return false
+		}
+	}
+	return stores > 0
+}
+
 // tryTriangle: `if c { then } join` where the then-block can be executed speculatively; returns the join block and
 // the merged phi values, or nil.
 func (fr *Frame) tryTriangle(b *ssa.BasicBlock, c *Term) (*ssa.BasicBlock, map[*ssa.Phi]Value) {
@@ -139,10 +168,37 @@ func (fr *Frame) tryTriangle(b *ssa.BasicBlock, c *Term) (*ssa.BasicBlock, map[*
 		return nil, nil
 	}
 	try := func(then, join *ssa.BasicBlock, cond *Term) (*ssa.BasicBlock, map[*ssa.Phi]Value) {
-		if len(then.Preds) != 1 || len(then.Succs) != 1 || then.Succs[0] != join || !speculatable(then) {
+		if len(then.Preds) != 1 || len(then.Succs) != 1 || then.Succs[0] != join || !(speculatable(then) || defaultStores(then)) {
 			return nil, nil
 		}
 		s := fr.st
+		// `if c { x.f = const }` (defaulting of a configuration field): the store becomes x.f = ite(c, const, x.f)
+		if defaultStores(then) {
+			hasPhi := false
+			for _, in := range join.Instrs {
+				if _, ok := in.(*ssa.Phi); ok {
+					hasPhi = true
+				}
+			}
+			if !hasPhi {
+				n := len(s.pc)
+				s.pc = append(s.pc, cond)
+				saved := s.storeGuard
+				s.storeGuard = cond
+				for _, in := range then.Instrs {
+					if _, ok := in.(*ssa.Jump); ok {
+						continue
+					}
+					fr.exec(in)
+				}
+				s.storeGuard = saved
+				s.pc = s.pc[:n]
+				return join, map[*ssa.Phi]Value{}
+			}
+		}
+		if !speculatable(then) {
+			return nil, nil
+		}
 		// only worth it when the join merges a list (otherwise forking is fine and keeps terms simpler)
 		hasList := false
 		for _, in := range join.Instrs {
